@@ -160,7 +160,7 @@ fn main() {
                 // many class questions about non-ASCII characters on one shared compiled scanner:
                 // anything memoised inside the shared matcher is hammered from three threads
                 5 => {
-                    for _ in 0..2 {
+                    for _ in 0..4 {
                         assert_eq!(scan(&shared, HAMMER, 0, 64), exp_hammer, "shared scan of non-ASCII text differs");
                     }
                 }
